@@ -104,4 +104,6 @@ def run(ck):
     if mm and not [v for v in ck.violations if not v["no_input"]]:
         ck.report("corr:T2-body", "the model of the code generator no longer matches the real expansion (%d inputs differ)" % len(mm),
                   dict(broken="correspondence T2 (expansion tokens)", theorems=["C09_root_not_consumed"], first=mm[:3]), no_input=True)
+    import parsetie
+    parsetie.light_tie(ck, "C09: the compiled programs' expectations read patterns with the model parser")
     ck.assumptions += ["rustc's borrow checker is the oracle for 'moves'; the model's `consumes` judgment (AsModel.Static) is validated against it cell by cell"]
